@@ -8,7 +8,13 @@
 pub mod util;
 
 #[cfg(kani)]
+pub mod c04;
+#[cfg(kani)]
+pub mod c11;
+#[cfg(kani)]
 pub mod c27;
+#[cfg(kani)]
+pub mod c35;
 
 /// Counterexamples found by the solver are replayed natively from here (file is rewritten by
 /// /verif/lib/replay.py and restored to empty afterwards).
